@@ -248,6 +248,24 @@ var regressionShapes = []string{
 	"Rn / Rr / 'a'",
 }
 
+// miscFamily: shapes suggested by seeded changes that the other families did not contain: predicates whose Go
+// expression has a top-level binary operator (the emitter negates the expression text), lookaheads over a choice that
+// -switch dispatches on and that records tokens (rule, capture, action) before being abandoned, and an optional /
+// repetition / lookahead at the head of a dispatched alternative whose case covers several characters.
+var miscFamily = []string{
+	"&{p.ok || p.n > 0} 'a'", "&{p.ok && p.n == 0} 'a'", "&{p.n == 0} 'a'", "'a' &{p.n < 3 || p.ok} 'b' / 'a'",
+	"&(Rc 'p' / <'a'> 'q' / 'b' {p.n += len(text)}) . 'z'",
+	"!(Rc 'p' / <'a'> 'q' / 'b' {p.n += len(text)}) . 'z'",
+	"&(Rc 'p' / <'a'> 'q' / 'b' {p.n += len(text)} / [d-f] Rc) . . 'z'",
+	"(&(Rc / <'a'> / 'b' {p.n += len(text)}) [a-c])+ 'z'",
+	"'-'? [0-9]+ / '(' 'x' ')' / [a-z]+",
+	"[+\\-]? [0-9]+ / '(' 'x' ')' / [a-z]+",
+	"[+\\-]* [0-9] / '(' 'x' ')' / [a-z]+",
+	"&[0-9] [0-4]? [0-9] / '(' 'x' ')' / [a-z]+",
+	"<[+\\-]?> [0-9]+ / '(' 'x' ')' / [a-z]+",
+	"([+\\-] / 'e')? [0-9]+ / '(' 'x' ')' / [a-z]+",
+}
+
 // switchFamily: three-way choices with disjoint first characters whose alternatives begin with every
 // kind of prefix (lookahead of the same or another character, optional, repetition, capture, action,
 // predicate, rule reference), in first and middle position, with and without an empty last alternative,
@@ -393,6 +411,9 @@ func writeSchemas(dir, tier string, seed int) ([]*SchemaFile, error) {
 	for _, t := range backtrackFamily() {
 		hz = append(hz, shape{text: t, desc: "backtrack family"})
 	}
+	for _, t := range miscFamily {
+		hz = append(hz, shape{text: t, desc: "misc family"})
+	}
 	for i := 0; i < len(hz); i += perFile {
 		j := i + perFile
 		if j > len(hz) {
@@ -455,6 +476,25 @@ Factor <- '(' Expr ')' / Num / [a-z]+ / '-' Factor
 List <- '{' Elems? '}'
 Elems <- Elem (',' Elem)*
 Elem <- List / Num / Str / [a-z]+ / '<' Elem '>'
+`,
+	// once-referenced rules (what -inline expands in place) under every repetition and lookahead operator: an inlined
+	// operand can fail after consuming input and adding tokens, which a called rule never shows to its caller
+	`Start <- (P1 / P2 / P3 / P4 / P5 / P6 / P7) !.
+P1 <- 'x' Inl1+ 'w'
+Inl1 <- 'a' 'b'
+P2 <- 'y' Inl2* 'a' 'w'
+Inl2 <- <'a'> 'b' {p.n += len(text)}
+P3 <- 'z' (Inl3 'c')+ 'a' 'b' 'w'
+Inl3 <- 'a' Num 'b'
+P4 <- 'u' Inl4? 'a' 'w'
+Inl4 <- 'a' Num 'b'
+P5 <- 'v' &Inl5 'a' Num 'w'
+Inl5 <- 'a' Num 'b'
+P6 <- 't' !Inl6 'a' Num 'w'
+Inl6 <- 'a' Num 'b'
+P7 <- 's' (Inl7 / 'a' Num 'w')
+Inl7 <- 'a' Num 'b'
+Num <- [0-9]+
 `,
 }
 
